@@ -146,8 +146,8 @@ End Draws.
 
 
 (* ------------------------------------------------------------------ the engine's Monte-Carlo environment *)
+From Coquelicot Require Import Rbar Hierarchy RInt_gen.
 From BV Require Export Model.EvalX Model.Deriv.
-From Coquelicot Require Import Coquelicot.
 Open Scope nat_scope.
 
 Section EngineEnv.
